@@ -324,10 +324,12 @@ class Arbiter(object):
             s = self.get_socket(n)
             s.close()
             # Get the watchers whichs use these, these should not be
-            # active anymore
-            for w in self.iter_watchers():
-                if 'circus.sockets.%s' % n.lower() in w.cmd:
-                    wn_with_deleted_socket.add(w.name)
+            # active anymore (a changed socket comes back below, its
+            # watchers are restarted with it)
+            if n not in changed_sn:
+                for w in self.iter_watchers():
+                    if 'circus.sockets.%s' % n.lower() in w.cmd:
+                        wn_with_deleted_socket.add(w.name)
             del self.sockets[s.name]
 
         # get added sockets
@@ -352,11 +354,12 @@ class Arbiter(object):
         new_wn = set([i['name'] for i in new_cfg.get('watchers', [])])
         new_wn = new_wn | set([i['name'] for i in new_cfg.get('plugins', [])])
         added_wn = (new_wn - current_wn) | wn_with_changed_socket
-        deleted_wn = current_wn - new_wn - wn_with_changed_socket
+        deleted_wn = (current_wn - new_wn) | (wn_with_changed_socket &
+                                              current_wn)
         maybechanged_wn = current_wn - deleted_wn
         changed_wn = set([])
 
-        if wn_with_deleted_socket and wn_with_deleted_socket not in new_wn:
+        if wn_with_deleted_socket & new_wn:
             raise ValueError('Watchers %s uses a socket which is deleted' %
                              wn_with_deleted_socket)
 
